@@ -76,6 +76,8 @@ theorem fExists_ok (w0 : World) (p) : Ok w0 (fExists p) := by
   unfold Ok; mvcgen [fExists, getW]
 theorem fIsSymlink_ok (w0 : World) (p) : Ok w0 (fIsSymlink p) := by
   unfold Ok; mvcgen [fIsSymlink, getW]
+theorem holdsOnlyOwnFiles_ok (w0 : World) (cfg l) : Ok w0 (holdsOnlyOwnFiles cfg l) := by
+  unfold Ok; mvcgen [holdsOnlyOwnFiles, getW]
 
 theorem testName_ok (w0 : World) (d t) : Ok w0 (testName d t) := by
   unfold Ok testName
@@ -158,7 +160,8 @@ theorem removeLayerExportLinks_ok (w0 : World) (cfg l) : Ok w0 (removeLayerExpor
 theorem removeLayer_ok (w0 : World) (cfg d n f) : Ok w0 (removeLayer cfg d n f) := by
   unfold Ok
   mvcgen [removeLayer, testName_ok, getL_ok, errorIfError_ok, errorIfBusy_ok, fail,
-          removeLayerExportLinks_ok, fsRemove_ok, fExists_ok, fsRename_ok, reorder_ok]
+          removeLayerExportLinks_ok, fsRemove_ok, fExists_ok, fsRename_ok, reorder_ok,
+          holdsOnlyOwnFiles_ok]
   all_goals nf_done
 
 theorem renameLayer_ok (w0 : World) (cfg d o n co) : Ok w0 (renameLayer cfg d o n co) := by
